@@ -159,8 +159,9 @@ def run(ctx):
                 from .. import symx
                 ai_ = [i_ for i_, a_ in enumerate(rd.args(u)) if rd.canon(a_, subst=False) == var]
                 if ai_:
-                    vl, vh, _n = symx.arg_bounds(rd, P, u, ai_[0])
-                    lo, hi = lo or vl, hi or vh
+                    _l, _h, _n, facts = symx.arg_bounds(rd, P, u, ai_[0])
+                    lo = lo or ("0", "<=", "v") in facts or ("-1", "<", "v") in facts
+                    hi = hi or ("v", "<", "fsg->n_state") in facts
             ctx.check(w2, lo and hi, key(rd, "range:%s@%s" % (var, rd.nodes[u]["callee"])), rd.where(u), "state number `%s` reaches %s without 0 <= %s < n_state" % (var, rd.nodes[u]["callee"], var))
     pu = [s for s in paths.stores(rd) if s["path"] == "tprob"]
     for s in pu:
